@@ -535,6 +535,9 @@ def c34(pid, spec, tier, seed):
     wdir = os.path.join(cl.WORK, pid)
     texts, rng = texts_for(seed, tier, 150, 4000)
     base = [t for _, t in texts]
+    # every declaration and annotation form of the PAR language (%nt_type, %t_type, %user_type, %skip, %on, scanner blocks,
+    # lookaheads, member names, cut operators ...)
+    base += [gen_annotated(rng) for _ in range(1500 if tier == 'thorough' else 150)]
     oracle = par_oracle(base, wdir, 'base')
     allt = list(base)
     for t, o in zip(base, oracle):
